@@ -1675,6 +1675,8 @@ func (mgr *Manager) convertStreamJob(allConverters []*converters.CachedConverter
 		mgr.inheritTagUncertainty()
 		mgr.startTaggingJobIfNeeded()
 		mgr.startConverterJobIfNeeded()
+		// merges wait for the converter job as well
+		mgr.startMergeJobIfNeeded()
 		releaser.release(mgr)
 	}
 }
